@@ -125,6 +125,33 @@ def run(res, tier, br, model_ok=True, search=False):
                 got = parse_any(out["stdout"], fmt) if out.get("exit") is not None else None
                 if got != b:
                     res.report("inline:findings-differ", f"{name} passed with {flag}: {got} instead of {b}"[:600], dict(rp, opts=extra + [flag]))
+        # the options act on EVERY file of a run alike: a file gets, as the second file of a run, what it gets alone
+        # under the same options (and therefore what the same content gets inline)
+        defs_src = "#define limit 1 + 2\n#define SQUARE(x) x * x\n#define OK 1\n\nint\tg_v = OK ? 1 : 2;\n"
+        good_h = "#ifndef UTILS_H\n# define UTILS_H\n\nint\tf(void);\n\n#endif\n"
+        bad_h = "#ifndef UTILS_H\n# define UTIL_H\n\nint\tf(void);\n\n#endif\n"
+        pairs = [("first.c", defs_src, "second.c", defs_src), ("good/utils.h", good_h, "bad/utils.h", bad_h), ("bad/utils.h", bad_h, "good/utils.h", good_h),
+                 ("n1.c", "int\tg_counter;\n", "second.c", defs_src), ("defs.h", "#ifndef DEFS_H\n# define DEFS_H\n# define bad(x) (x + 1)\n#endif\n", "first.c", defs_src)]
+        for pk, (n1, s1, n2, s2) in enumerate(pairs):
+            d = os.path.join(tmp, f"pair{pk}")
+            for nm, sx in ((n1, s1), (n2, s2)):
+                os.makedirs(os.path.dirname(os.path.join(d, nm)) or d, exist_ok=True)
+                open(os.path.join(d, nm), "w").write(sx)
+            for o in ([], ["-R", "CheckDefine"], ["-R", "Foo"], ["--no-colors", "-o"], ["-f", "json"], ["-R", "CheckDefine", "-f", "json"]):
+                fmt = "json" if "json" in o else "humanized"
+                alone = main_inprocess(o + [n2], d)
+                both = main_inprocess(o + [n1, n2], d)
+                res.count("second-file", 1)
+                res.nontriv(("pair", pk, tuple(o)))
+                if alone.get("exit") is None or both.get("exit") is None:
+                    continue
+                a_ = parse_any(alone["stdout"], fmt)
+                b_ = parse_any(both["stdout"], fmt)
+                if not a_ or not b_ or len(a_) != 1 or len(b_) != 2:
+                    continue
+                if b_[1][1:] != a_[0][1:]:
+                    res.report("options:findings-differ", f"{n2} as the second file of a run with {' '.join(o) or 'no option'} (after {n1}): {b_[1][1:]} instead of {a_[0][1:]}"[:600],
+                               {"kind": "pair", "opts": o, "files": {n1: s1, n2: s2}, "argv": [n1, n2]})
         # several files in one run: both formats list them in the order of the command line (separate processes)
         d = os.path.join(tmp, "multi")
         os.makedirs(d)
@@ -155,7 +182,25 @@ def run(res, tier, br, model_ok=True, search=False):
         shutil.rmtree(tmp, ignore_errors=True)
 
 
+def replay_pair(rp):
+    d = tempfile.mkdtemp(prefix="verif_c16p_")
+    try:
+        for nm, sx in rp["files"].items():
+            os.makedirs(os.path.dirname(os.path.join(d, nm)) or d, exist_ok=True)
+            open(os.path.join(d, nm), "w").write(sx)
+        o, (n1, n2) = rp["opts"], rp["argv"]
+        fmt = "json" if "json" in o else "humanized"
+        a_ = parse_any(main_inprocess(o + [n2], d)["stdout"], fmt)
+        b_ = parse_any(main_inprocess(o + [n1, n2], d)["stdout"], fmt)
+        print("options :", o); print("alone   :", a_); print("as second file:", b_)
+        return 0 if (a_ and b_ and len(b_) == 2 and b_[1][1:] == a_[0][1:]) else 1
+    finally:
+        shutil.rmtree(d, ignore_errors=True)
+
+
 def replay(rp):
+    if rp.get("kind") == "pair":
+        return replay_pair(rp)
     if rp.get("kind") != "options":
         print("replay names a broken obligation/correspondence:", rp.get("broken"))
         return 1
